@@ -533,7 +533,13 @@ class Gen:
     def maybe(self, p):
         return self.rng.random() < p
 
+    TRICKY = ["[^,]+", "a{3,}", "x, ]", "k,}", "say \"hi\"", "back\\slash", "tab\there", ", }", "[1, 2,]", "{\"a\": 1,}", "a,\n]", "50%", "it's", "<b>&amp;"]
+
     def word(self):
+        if self.rng.random() < 0.08:
+            # text that looks like JSON punctuation: must arrive untouched (the track is decoded as JSON, not as text)
+            self.features.add("text-with-json-punctuation")
+            return self.rng.choice(self.TRICKY)
         return self.rng.choice(["alpha", "beta", "gamma-1", "delta_2", "eps.ilon", "zeta 7", "eta:8", "théta", "io/ta"])
 
     def small_obj(self):
@@ -561,6 +567,8 @@ class Gen:
             ("run-on-serverless", r.choice([True, False])),
             ("corpora", [self.word()]),
             ("x-custom", {"nested": [1, {"deep": None}]}),
+            ("pattern", r.choice(self.TRICKY)),
+            ("script", {"source": "params.l = [1, 2,]; ctx._source.m = ['a': 1,]", "lang": "painless"}),
         ]
         k = r.choice([0, 0, 1, 2, 3])
         return dict(r.sample(cands, k))
@@ -621,7 +629,7 @@ class Gen:
     def task_extras(self):
         r = self.rng
         cands = [
-            ("target-throughput", r.choice([10, 0.5, 1000, "5 ops/s", "20 MB/s", 0])),
+            ("target-throughput", r.choice([10, 0.5, 1000, "5 ops/s", "20 MB/s", 0, ".5 ops/s", "0.25 pages/s", "5000 docs/s"])),
             ("target-interval", r.choice([1, 0.25, 30])),
             ("ignore-response-error-level", "non-fatal"),
             ("run-on-serverless", r.choice([True, False])),
@@ -1077,7 +1085,7 @@ def jinja_lit(v):
 
 
 def plain_str(s):
-    return isinstance(s, str) and s != "" and not any(c in s for c in "'\"\\{}%#\n<>&")
+    return isinstance(s, str) and s != "" and not any(c in s for c in "'\"\\{}%#\n<>&") and all(ord(c) >= 32 for c in s)
 
 
 class Writer:
@@ -1776,11 +1784,14 @@ def v_param_named_like_template_local(rng, spec, params):
     params["__template_local__"] = rng.choice(["set", "for", "macro-argument", "with"])
 
 
-def v_reserved_param(rng, spec, params):
-    from esrally.track import loader
+# Rally's own template variables as documented (docs/advanced.rst: now, build_flavor, serverless_operator; glob is the helper
+# behind rally.collect) — written down here, NOT read from the code under test
+RESERVED_DOC = ["now", "glob", "build_flavor", "serverless_operator"]
 
-    name = rng.choice(sorted(loader.default_internal_template_vars()["globals"].keys()))
-    params[name] = rng.choice([1, "v"])
+
+def v_reserved_param(rng, spec, params):
+    name = rng.choice(RESERVED_DOC)
+    params[name] = rng.choice([1, "v", True])
     if rng.random() < 0.7:
         # the template also refers to the reserved name, so that only the reserved-parameter rule can reject it
         params["__reference__"] = name
@@ -2467,6 +2478,9 @@ def gen_param_accounting(ctx):
     rng = ctx.rng
     for _ in range(ctx.budget):
         main = gen_stmts(rng, 0, True)
+        reserved_reads = rng.sample(RESERVED_DOC, rng.choice([0, 0, 1, 2, 4]))
+        for nm in reserved_reads:                                            # the track reads Rally's own variables, too
+            main.insert(rng.randrange(len(main) + 1), ["read", nm])
         part = gen_stmts(rng, 0, False) if rng.random() < 0.4 else None     # textually collected: part of the assembled source
         body = gen_stmts(rng, 0, False) if rng.random() < 0.3 else None     # index body: a template of its own
         inc_name = rng.choice(["only_in_include", "bulk_size", "shards"]) if rng.random() < 0.3 else None
@@ -2480,6 +2494,8 @@ def gen_param_accounting(ctx):
         for nm in local_only:
             cats[nm] = "locally-bound-only"
         cats["never_mentioned"] = "unknown"
+        for nm in RESERVED_DOC:
+            cats[nm] = "reserved-and-read" if nm in reserved_reads else "reserved-not-read"
         typo = sorted(reads)[0] + "s" if reads else "clientss"
         if typo not in cats:
             cats[typo] = "typo-of-a-read-name"
@@ -2488,6 +2504,8 @@ def gen_param_accounting(ctx):
         user = {}
         for nm in rng.sample(sorted(cats), min(len(cats), rng.choice([0, 1, 1, 2, 3]))):
             user[nm] = rng.choice([11, 42, "uv"])
+        if rng.random() < 0.25:
+            user[RESERVED_DOC[len(main) % len(RESERVED_DOC)]] = rng.choice([1, "uv", True])
         yield {"main": main, "part": part, "body": body, "include": inc_name, "shown": shown, "user": user,
                "categories": {k: cats[k] for k in user}}
 
@@ -2514,7 +2532,7 @@ def run_param_accounting(ctx, case):
     user = case["user"]
     impl = run_impl(files, user or None, None)
     # what the accounting registers for the assembled track file (real function, public result)
-    env_globals = sorted(set(jinja2.Environment().globals) | set(loader.default_internal_template_vars()["globals"]))
+    env_globals = sorted(set(jinja2.Environment().globals) | set(RESERVED_DOC))   # Jinja's built-ins + the documented names
     assembled_stmts = main + (part or []) + [["read", case["shown"]]]
     if "assembled" in impl:
         ctp = loader.CompleteTrackParams()
@@ -2526,13 +2544,24 @@ def run_param_accounting(ctx, case):
     templates = [assembled_stmts] + ([body] if body is not None else [])
     mu = ctx.model("tracktemplate", "unused", {"templates": templates, "env_globals": env_globals, "user": sorted(user)})
     model_outcome = "ok" if not mu["r"] else "TrackConfigError"
+    reserved_supplied = sorted(n for n in user if n in RESERVED_DOC)
+    if reserved_supplied:
+        # direct oracle: Rally's own variables are reserved — always a TrackConfigError, whether the track reads them or not
+        if "ok" in impl:
+            ctx.fail("reserved-parameter-accepted:" + case["categories"].get(reserved_supplied[0], "reserved"),
+                     f"the supplied parameter(s) {reserved_supplied} are Rally's own template variables, yet the track loads (the value is ignored)",
+                     "TrackConfigError", "loaded")
+        elif impl.get("err") != "TrackConfigError":
+            ctx.fail("wrong-error-class:reserved-parameter", impl.get("msg", ""), "TrackConfigError", impl.get("err"))
     if model_outcome != outcome(impl):
         ctx.diff("outcome of the unused-parameter rule", model_outcome + " " + ",".join(mu["r"]), outcome(impl) + ": " + impl.get("msg", ""))
     # direct oracle: accepted iff every supplied name is read from the render context by the assembled track or an index body
     reads = py_reads(assembled_stmts) | (py_reads(body) if body is not None else set())
     reads -= set(env_globals)
     not_read = sorted(n for n in user if n not in reads)
-    if not_read and "ok" in impl:
+    if reserved_supplied:
+        pass  # decided above: the reserved-parameter rule fires first and names only the reserved ones
+    elif not_read and "ok" in impl:
         cat = case["categories"].get(not_read[0], "?")
         ctx.fail("unread-parameter-accepted:" + cat, f"the supplied parameter(s) {not_read} are not read from the render context anywhere "
                  "(locally bound / unknown), yet the track loads silently", "TrackConfigError naming " + str(not_read), "loaded")
@@ -2554,6 +2583,164 @@ def run_param_accounting(ctx, case):
     for c in case["categories"].values():
         ctx.count("supplied:" + c)
     ctx.sig([sorted(set(case["categories"].values())), outcome(impl), part is not None, body is not None, inc is not None], nontrivial=bool(user))
+
+
+# ---------------------------------------------------------------------------------------------
+# throughput_spellings stream: every legal and illegal spelling of a throughput target, through Task.target_throughput
+# ---------------------------------------------------------------------------------------------
+TP_UNITS = ["ops/s", "docs/s", "MB/s", "pages/s", "GB/s", "kB/s", "o_p9/s", "OPS/S"]
+TP_BAD_UNITS = ["ops/sec", "ops", "/s", "ops /s", "ops/m", "ops/s/s", "ops-x/s", ""]
+
+
+def gen_throughput(ctx):
+    rng = ctx.rng
+    for _ in range(ctx.budget):
+        k = rng.choice(["string"] * 7 + ["numeric", "numeric", "interval", "both", "odd"])
+        case = {}
+        if k == "string":
+            ip = rng.choice(["", "", "0", "5", "05", "12", "5000", "007", "1000000", "20"])
+            fp = rng.choice([None, None, "", "5", "25", "50", "000", "0", "125", "1"])
+            exp = rng.choice(["", "", "", "", "e3", "E-2", "e+1"])
+            sep = rng.choice([" ", " ", " ", " ", "\t", "  ", "", "\n", "\r", "\x0b", "_"])
+            unit = rng.choice(TP_UNITS * 3 + TP_BAD_UNITS)
+            lead = rng.choice(["", "", "", "", " ", "-", "+"])
+            trail = rng.choice(["", "", "", " ", " extra", "s", "/s"])
+            case["tt"] = lead + ip + ("" if fp is None else "." + fp) + exp + sep + unit + trail
+        elif k == "numeric":
+            case["tt"] = rng.choice([0, 1, 10, 1000, 0.5, 0.25, 2.5, 1000.0, 0.0, 1e-3, 123456789012345678])
+        elif k == "interval":
+            case["ti"] = rng.choice([0, 1, 2, 4, 0.25, 30, 0.1, 3, 7.5, 0.0])
+        elif k == "both":
+            case["tt"] = rng.choice([10, "5 ops/s", 0, ""])
+            case["ti"] = rng.choice([2, 0.5, 0])
+        else:
+            case["tt"] = rng.choice([True, False, [], [1], {}, "", None, "ops/s", "5"])
+            if rng.random() < 0.3:
+                case["ti"] = rng.choice([True, "2", None])
+        yield case
+
+
+def doc_throughput_grammar(s):
+    """the documented shape of a throughput string, written down independently of the code: a decimal number (digits,
+    optionally a point followed by at least one digit; the digits before the point may be missing), exactly one
+    white-space character, a unit = one or more of [A-Za-z0-9_] followed by "/s"; anything after the unit is ignored.
+    Returns (Fraction, unit, shape) or None."""
+    from fractions import Fraction
+
+    i, n = 0, len(s)
+    while i < n and s[i] in "0123456789":
+        i += 1
+    ip = s[:i]
+    fp = None
+    if i < n and s[i] == "." and i + 1 < n and s[i + 1] in "0123456789":
+        j = i + 1
+        while j < n and s[j] in "0123456789":
+            j += 1
+        fp = s[i + 1:j]
+        i = j
+    if fp is None and not ip:
+        return None
+    if i >= n or s[i] not in " \t\n\r\x0b\x0c\x1c\x1d\x1e\x1f":
+        return None
+    i += 1
+    j = i
+    while j < n and (s[j].isascii() and (s[j].isalnum() or s[j] == "_")):
+        j += 1
+    if j == i or s[j:j + 2] != "/s":
+        return None
+    value = Fraction(int(ip + (fp or "") or "0"), 10 ** len(fp or ""))
+    shape = "no-digits-before-the-point" if (fp is not None and not ip) else ("decimal" if fp is not None else "integer")
+    return value, s[i:j + 2], shape
+
+
+def jv(v, present):
+    if not present or v is None:
+        return {"k": "null"}
+    if isinstance(v, bool):
+        return {"k": "bool", "v": v}
+    if isinstance(v, int):
+        return {"k": "int", "v": str(v)}
+    if isinstance(v, float):
+        a, b = v.as_integer_ratio()
+        return {"k": "float", "v": f"{a}/{b}"}
+    if isinstance(v, str):
+        return {"k": "str", "v": v}
+    return {"k": "other", "v": bool(v)}
+
+
+def run_throughput(ctx, case):
+    from fractions import Fraction
+
+    from esrally import exceptions
+    from esrally.track import track
+
+    params = {}
+    if "tt" in case:
+        params["target-throughput"] = case["tt"]
+    if "ti" in case:
+        params["target-interval"] = case["ti"]
+
+    def observe(task):
+        try:
+            r = task.target_throughput
+            return None if r is None else [list(float(r.value).as_integer_ratio()), r.unit]
+        except exceptions.InvalidSyntax:
+            return "InvalidSyntax"
+        except Exception as e:  # pylint: disable=broad-except
+            return "raised " + type(e).__name__
+
+    direct = observe(track.Task("t", track.Operation("op", "bulk"), params=dict(params)))
+    # the same through the track file
+    spec = {"schedule": [dict({"operation": "bulk"}, **params)]}
+    impl = run_impl({"track.json": json.dumps(spec)}, None, None)
+    via_file = None
+    if "ok" in impl:
+        # re-load to get at the Task object (run_impl only returns the canonical form): the pass-through params are what counts
+        loaded_params = impl["ok"]["challenges"][0]["schedule"][0]["task"]["params"]
+        via_file = observe(track.Task("t", track.Operation("op", "bulk"), params=dict(loaded_params)))
+        if via_file != direct:
+            ctx.fail("throughput-target-changed-by-loading", "target_throughput of the loaded task differs from the one of the written values", direct, via_file)
+    ctx.count("load:" + outcome(impl))
+    # model
+    m = ctx.model("trackthroughput", "target", {"tt": jv(case.get("tt"), "tt" in case), "ti": jv(case.get("ti"), "ti" in case)})
+    if "err" in m:
+        mm = "InvalidSyntax"
+    elif m["r"] is None:
+        mm = None
+    else:
+        a, b = m["r"][0].split("/")
+        mm = [[int(a), int(b)], m["r"][1]]
+    if mm != direct:
+        ctx.diff("target_throughput", mm, direct)
+    # direct oracle from the documented grammar
+    tt, ti = case.get("tt"), case.get("ti")
+    shape = "other"
+    numeric = lambda v: isinstance(v, (int, float)) and not isinstance(v, bool)
+    if tt is not None and ti is not None:
+        exp, shape = "InvalidSyntax", "both"
+    elif ti:
+        shape = "interval"
+        exp = [list((1 / float(ti)).as_integer_ratio()), "ops/s"] if numeric(ti) else "InvalidSyntax"
+    elif tt:
+        if isinstance(tt, str):
+            g = doc_throughput_grammar(tt)
+            if g is None:
+                exp, shape = "InvalidSyntax", "not-a-throughput-string"
+            else:
+                val = float(g[0])
+                shape = "string:" + g[2]
+                exp = [list(val.as_integer_ratio()), g[1]] if val else None
+        elif numeric(tt):
+            exp, shape = [list(float(tt).as_integer_ratio()), "ops/s"], "number"
+        else:
+            exp, shape = "InvalidSyntax", "neither-string-nor-number"
+    else:
+        exp, shape = None, "unthrottled"
+    if direct != exp:
+        ctx.fail("throughput-target-not-what-the-file-says:" + shape, f"target-throughput={tt!r} target-interval={ti!r}", exp, direct)
+    ctx.count("shape:" + shape)
+    ctx.sig([shape, "InvalidSyntax" if direct == "InvalidSyntax" else ("none" if direct is None else direct[1]), m.get("tags"), outcome(impl)],
+            nontrivial=shape.startswith("string"))
 
 
 # ---------------------------------------------------------------------------------------------
@@ -2791,12 +2978,13 @@ def run_splitext(ctx, case):
 
 
 STREAMS = [
-    Stream("valid_tracks", gen_valid, run_case, quick=1280, thorough=24000, shards=16),
+    Stream("valid_tracks", gen_valid, run_case, quick=1000, thorough=20000, shards=16),
     Stream("rule_violations", gen_violations, run_case, quick=912, thorough=11400, shards=16),
     Stream("schema_types", gen_schema_types, run_schema_types, quick=800, thorough=12000, shards=16),
     Stream("assembly", gen_assembly, run_assembly, quick=1200, thorough=16000, shards=16),
     Stream("param_scopes", gen_param_scopes, run_param_scopes, quick=490, thorough=14000, shards=4),
     Stream("param_accounting", gen_param_accounting, run_param_accounting, quick=900, thorough=12000, shards=16),
+    Stream("throughput_spellings", gen_throughput, run_throughput, quick=1000, thorough=16000, shards=8),
     Stream("malformed", gen_malformed, run_malformed, quick=504, thorough=8400, shards=8),
     Stream("operation_types", gen_optypes, run_optypes, quick=400, thorough=20000, shards=2),
     Stream("splitext", gen_splitext, run_splitext, quick=1000, thorough=40000, shards=2),
